@@ -141,6 +141,22 @@ def check_config(ctx, prog, cfg):
                 ctx.ob('C16.R5', K('%s|no-store-before-exit|%d|%s' % (nm, i, sc)), not stores, fs[0].where,
                        '%s stores to %s at %s on a path that then calls masa_exit (registry changed by a failed call)' % (nm, [e[1] for e in stores], [e[2] for e in stores]),
                        sample='%s fatal path %d: no registry store' % (nm, i))
+                flat = []
+
+                def fl(es):
+                    for e_ in es:
+                        if e_[0] == 'loop':
+                            for k_, c_, sub in e_[1][1]:
+                                if k_ in ('fall', 'cont'):      # returning iterations do not reach what follows the loop
+                                    fl(sub)
+                        else:
+                            flat.append(e_)
+                fl(o.events)
+                dels = [e_ for e_ in flat if e_[0] == 'delete' and '_master_map' in terms.fmt(e_[1])]
+                ctx.ob('C16.R5', K('%s|no-registered-object-deleted|%d|%s' % (nm, i, sc)), not dels, fs[0].where,
+                       '%s deletes a registered solution (%s at %s) on a path that then calls masa_exit: after the failed call the registry holds a dangling pointer' % (
+                           nm, terms.fmt(dels[0][1])[:60] if dels else '', dels[0][2] if dels else ''),
+                       sample='%s fatal path %d: no registered object deleted' % (nm, i))
                 msg = any(e[0] == 'print' and 'MASA FATAL ERROR' in e[1] for e in o.events)
                 ctx.ob('C16.R4', K('%s|fatal-message|%d|%s' % (nm, i, sc)), msg, fs[0].where,
                        "%s calls masa_exit without printing a literal containing 'MASA FATAL ERROR' first" % nm, sample='%s prints MASA FATAL ERROR' % nm)
